@@ -220,6 +220,10 @@ def queries(tier):
         if tier == "quick":
             # quick: the third transaction is of X's own kind (first X packet / foreign traffic / next X packet)
             cubes = [c for c in cubes if c[0][2] == ("I" if x == "in" else "Q")]
+        else:
+            # thorough: the last transaction is one of X's own kind (the comparison is made in X's slots), any two before it
+            # (7 x 7 x 3 = 147 cubes per endpoint under test instead of 343)
+            cubes = [c for c in cubes if c[0][2] in (("I", "i", "Q") if x == "in" else ("Q", "P", "o"))]
         for name, layer in cubes:
             qs.append(Query(f"bmc_{x}_ep1_{name}", f3, 32 * 3 + 2, layer=layer, covers=[], timeout=900, split=False,
                             desc=f"endpoint under test {x.upper()} EP1, transactions {name}: full device vs device with only that endpoint"))
